@@ -37,6 +37,7 @@ type Server struct {
 	acknowledgedIDsTTL     time.Duration        // TTL for acknowledged message IDs (default: 10 minutes)
 	expirationTicker       *time.Ticker
 	expirationStopChan     chan struct{}
+	expirationStartOnce    sync.Once
 	newMessageSignal       chan struct{}
 	newMessageSignalClosed bool
 	done                   chan struct{}
@@ -75,9 +76,16 @@ func NewServer(protoOptions protocol.ProtocolOptions, cfg *Config) *Server {
 		InitialState:        protocolStateIdle,
 	}
 	s.Protocol = protocol.New(protoConfig)
-	// Start background goroutine to clean up expired acknowledged IDs after Protocol is set
-	s.startExpirationCleaner()
 	return s
+}
+
+// Start starts the protocol together with the background goroutine that
+// cleans up expired acknowledged IDs. The cleaner ends with the protocol, so it
+// must not run for a server that is never started (a client-only connection
+// constructs one as well): its DoneChan would never close
+func (s *Server) Start() {
+	s.expirationStartOnce.Do(s.startExpirationCleaner)
+	s.Protocol.Start()
 }
 
 // AddMessage adds a message to the notification queue
